@@ -131,9 +131,13 @@ type Case struct {
 	Ops     []Op     `json:"ops"`
 	Writers []Writer `json:"writers,omitempty"`
 	Leaves  []Leaf   `json:"leaves,omitempty"`
-	Seed    uint64   `json:"seed,omitempty"`    // yields of the conc goroutines
-	Barrier bool     `json:"barrier,omitempty"` // conc: the leaves call Close at the same instant (bounded spin barrier)
-	Reps    int      `json:"reps,omitempty"`    // conc: drive the same tree this many times (storm case)
+	// chunk type the streams of the case are instantiated with: "" = uint64, "str" = string (0 = the empty
+	// string), "ptr" = pointer to a struct (0 = the nil pointer), "iface" = a defined interface type with a
+	// method (0 = its nil value; two dynamic types)
+	Ty      string `json:"ty,omitempty"`
+	Seed    uint64 `json:"seed,omitempty"`    // yields of the conc goroutines
+	Barrier bool   `json:"barrier,omitempty"` // conc: the leaves call Close at the same instant (bounded spin barrier)
+	Reps    int    `json:"reps,omitempty"`    // conc: drive the same tree this many times (storm case)
 }
 
 // O is one observation (Model/Stream.v's obs).
@@ -201,10 +205,17 @@ func (engine) CoqCaseType() string { return "ccase" }
 
 func (engine) Generate(r *lib.Rng, tier string, i int) any {
 	// DESIGN §5: 500 trees + 300 histories (quick): 5 of 8 cases are scripts
+	var c *Case
 	if i%8 < 5 {
-		return genSeq(r, tier)
+		c = genSeq(r, tier)
+	} else {
+		c = genConc(r, tier)
 	}
-	return genConc(r, tier)
+	// half of the cases run on uint64 chunks, the others on strings, pointers or interface values
+	if r.Chance(1, 2) {
+		c.Ty = chunkTypes[1+r.Intn(len(chunkTypes)-1)]
+	}
+	return c
 }
 
 func (engine) Decode(raw json.RawMessage) (any, error) {
@@ -214,6 +225,13 @@ func (engine) Decode(raw json.RawMessage) (any, error) {
 	}
 	if c.Mode != "seq" && c.Mode != "conc" {
 		return nil, fmt.Errorf("bad mode %q", c.Mode)
+	}
+	okTy := false
+	for _, t := range chunkTypes {
+		okTy = okTy || c.Ty == t
+	}
+	if !okTy {
+		return nil, fmt.Errorf("bad chunk type %q", c.Ty)
 	}
 	return &c, nil
 }
@@ -242,6 +260,11 @@ func (engine) Run(ci any) lib.Result {
 	if res.Sig == "hang" {
 		hangs.Add(1)
 	}
+	ty := c.Ty
+	if ty == "" {
+		ty = "uint64"
+	}
+	res.Tags = append(res.Tags, "type:"+ty)
 	return res
 }
 
